@@ -9,10 +9,11 @@ DEMO=$(cd $WT && ls tests/demo_seeded.rs examples/*.rs 2>/dev/null | head -1)
 mkdir -p $OUT/demo && cp $WT/$DEMO $OUT/demo/
 echo "== confirm in worktree $WT (demo: $DEMO)"
 cd $WT
-git stash push -q -- src/ && git diff --quiet -- src/ || { echo "stash failed"; }
-BASE_DEMO=$(cargo test --offline --test demo_seeded 2>&1 | grep -E "^test result" | head -1)
-git stash pop -q
+# no `git stash` here: the stash is shared by all worktrees of /repo
 git diff -- src/ > /tmp/seed-$ID.now.diff
+git checkout -- src/
+BASE_DEMO=$(cargo test --offline --test demo_seeded 2>&1 | grep -E "^test result" | head -1)
+git apply /tmp/seed-$ID.now.diff
 WITH_DEMO=$(cargo test --offline --test demo_seeded 2>&1 | grep -E "^test result" | head -1)
 mv tests/demo_seeded.rs /tmp/demo_seeded.$ID.rs
 SUITE=$(cargo test --offline --features zlib,lz4,zstd,rayon 2>&1 | grep -E "^test result" | tr '\n' ' ')
